@@ -64,7 +64,7 @@ typedef struct { unsigned char *data; int len; int dur48; char what[80]; } pslot
 static pslot g_pk[4][MAXSLOT]; static int g_npk[4];
 static int g_grp[8];                           /* base -> packet group */
 static pslot *slot_put(int grp,int s,const unsigned char *d,int len,int dur48,const char *what){
-   pslot *p=&g_pk[grp][s]; p->data=malloc(len?len:1); memcpy(p->data,d,len); p->len=len; p->dur48=dur48; snprintf(p->what,sizeof p->what,"%s",what); if(s>=g_npk[grp]) g_npk[grp]=s+1; return p;
+   pslot *p=&g_pk[grp][s]; p->data=malloc(len?len:1); memcpy(p->data,d,len); C12_DEFINED(p->data,len); p->len=len; p->dur48=dur48; snprintf(p->what,sizeof p->what,"%s",what); if(s>=g_npk[grp]) g_npk[grp]=s+1; return p;
 }
 
 /* op: OP_IO a=slot (or -1 for PLC), b=decode_fec, c=format (0 int16, 1 float), d=PLC duration x0.1 ms */
@@ -78,7 +78,7 @@ static void d_apply(void *obj,int b,const opdef *op,obs_t *o){
       if (g_kid==KD_DEC) n= op->c? opus_decode_float(obj,data,len,pcm,fsz,op->b) : opus_decode(obj,data,len,pcm,fsz,op->b);
       else if (g_kid==KD_PROJ) n= op->c? opus_projection_decode_float(obj,data,len,pcm,fsz,op->b) : opus_projection_decode(obj,data,len,pcm,fsz,op->b);
       else n= op->c? opus_multistream_decode_float(obj,data,len,pcm,fsz,op->b) : opus_multistream_decode(obj,data,len,pcm,fsz,op->b);
-      o->ret=n; if(n>0){ o->outlen=n; o->outh=mc_hash(pcm,(size_t)n*d->ch*(op->c?sizeof(float):sizeof(short)),5); }
+      o->ret=n; if(n>0){ check_out_init(pcm,(size_t)n*d->ch*(op->c?sizeof(float):sizeof(short)),"pcm"); o->outlen=n; o->outh=mc_hash(pcm,(size_t)n*d->ch*(op->c?sizeof(float):sizeof(short)),5); }
       free(pcm);
    } else if (op->type==OP_SET){ o->ret=d_ctl_i(obj,op->a,op->b); }
    else o->ret=d_ctl_0(obj,OPUS_RESET_STATE);
@@ -89,9 +89,9 @@ static const char *const DG_NAME[]={"BANDWIDTH","COMPLEXITY","FINAL_RANGE","SAMP
 #define DG_N 8
 static void d_getters(void *obj,int b,obs_t *o){
    int i; (void)b;
-   for(i=0;i<DG_N;i++){ opus_uint32 v=0x5EEDBEEF; o->gret[i]=d_ctl_p(obj,DG_REQ[i],&v); o->gval[i]=o->gret[i]==OPUS_OK?v:0; }
+   for(i=0;i<DG_N;i++){ opus_uint32 v=0x5EEDBEEF; o->gret[i]=d_ctl_p(obj,DG_REQ[i],&v); check_out_init(&v,sizeof v,DG_NAME[i]); o->gval[i]=o->gret[i]==OPUS_OK?v:0; }
 }
-static kind_t KIND_D={ "decoder",0,db_name,d_size,d_init,d_create,d_destroy,d_apply,d_getters,DG_NAME,DG_N,NULL };
+static kind_t KIND_D={ "decoder",0,db_name,d_size,d_init,d_create,d_destroy,d_apply,d_getters,DG_NAME,DG_N,NULL,2 };
 
 static void add_op(const char *name,int type,int a,int b,int c,int d){ opdef *o=&OPS[NOPS++]; snprintf(o->name,sizeof o->name,"%s",name); o->type=type; o->a=a; o->b=b; o->c=c; o->d=d; }
 
@@ -111,6 +111,7 @@ static int add_pkt(const char *stream,int minidx,const char *label){
 static void alphabet_dec(int alpha){
    int lbrr,celt,hyb;
    corpus_build(&CO,0);
+   { int i; for(i=0;i<CO.n;i++) C12_DEFINED(CO.p[i].data,CO.p[i].len); }
    NOPS=0; g_nslot=0;
    add_pkt("silk bw0 200ms/10 ch1 r0",3,"SILK NB 20ms mono");
    lbrr=add_pkt("silk wb 20ms fec ch1",4,"SILK WB 20ms mono +LBRR");
@@ -160,13 +161,14 @@ static void make_ms_packets(int grp,const dbase *d){
       if (g_kid==KD_PROJ){ pe=ref_opus_projection_ambisonics_encoder_create(48000,d->ch,3,&st,&cp,m->app,&err);
          if(!pe||st!=d->streams||cp!=d->coupled){ fprintf(stderr,"c12: ref projection encoder layout mismatch\n"); exit(2); }
          ref_opus_projection_encoder_ctl(pe,OPUS_SET_BITRATE(rate)); if(m->fec){ ref_opus_projection_encoder_ctl(pe,OPUS_SET_INBAND_FEC(1)); ref_opus_projection_encoder_ctl(pe,OPUS_SET_PACKET_LOSS_PERC(20)); }
-         if (c==0){ ref_opus_projection_encoder_ctl(pe,OPUS_PROJECTION_GET_DEMIXING_MATRIX_SIZE(&g_demix_size)); if(g_demix_size>(int)sizeof g_demix){ fprintf(stderr,"c12: demix too big\n"); exit(2);} ref_opus_projection_encoder_ctl(pe,OPUS_PROJECTION_GET_DEMIXING_MATRIX(g_demix,g_demix_size)); }
+         if (c==0){ ref_opus_projection_encoder_ctl(pe,OPUS_PROJECTION_GET_DEMIXING_MATRIX_SIZE(&g_demix_size)); if(g_demix_size>(int)sizeof g_demix){ fprintf(stderr,"c12: demix too big\n"); exit(2);} ref_opus_projection_encoder_ctl(pe,OPUS_PROJECTION_GET_DEMIXING_MATRIX(g_demix,g_demix_size)); C12_DEFINED(g_demix,sizeof g_demix); }
       } else if (d->family==1){ me=ref_opus_multistream_surround_encoder_create(48000,d->ch,1,&st,&cp,map,m->app,&err);
          if(!me||st!=d->streams||cp!=d->coupled||memcmp(map,d->mapping,d->ch)){ fprintf(stderr,"c12: ref surround layout mismatch\n"); exit(2); }
       } else me=ref_opus_multistream_encoder_create(48000,d->ch,d->streams,d->coupled,d->mapping,m->app,&err);
       if (me){ ref_opus_multistream_encoder_ctl(me,OPUS_SET_BITRATE(rate)); if(m->fec){ ref_opus_multistream_encoder_ctl(me,OPUS_SET_INBAND_FEC(1)); ref_opus_multistream_encoder_ctl(me,OPUS_SET_PACKET_LOSS_PERC(20)); } }
       sig_init(&g,m->sig,48000,d->ch,(uint32_t)(c*5+2));
       for(i=0;i<=m->take;i++){ sig_gen(&g,pcm,fsz); n= pe? ref_opus_projection_encode(pe,pcm,fsz,out,sizeof out) : ref_opus_multistream_encode(me,pcm,fsz,out,sizeof out); if(n<0){ fprintf(stderr,"c12: ref ms encode failed %d\n",n); exit(2);} }
+      C12_DEFINED(out,sizeof out);
       snprintf(w,sizeof w,"%s, %d bytes",m->label,n);
       slot_put(grp,c,out,n,m->dur_x10*48/10,w);
       if (pe) ref_opus_projection_encoder_destroy(pe); else ref_opus_multistream_encoder_destroy(me);
@@ -189,6 +191,7 @@ static void alphabet_ms(int alpha){
 int main(int argc,char **argv){
    const char *kind; int alpha,i; const char *bases;
    mc_init(argc,argv,"C12","dec");
+   engine_replay_outdir();
    kind=mc_arg_s("--kind","dec"); MC.part=mc_arg_s("--part",kind);
    alpha=(int)mc_arg("--alpha",MC.tier?1:0);
    if (!strcmp(kind,"dec")){ g_kid=KD_DEC; DBS=DB_DEC; NDB=sizeof DB_DEC/sizeof DB_DEC[0]; KIND_D.name="decoder"; }
